@@ -78,6 +78,74 @@ theorem staleness (c : Cfg) (s : State) (b : Cur) (t0 now : Nat)
   obtain ⟨s2, h2a, h2b, h2c⟩ := h2
   exact ⟨_, s2, readiness c b now, h1, h2a, h2b, hready, h2c⟩
 
+/-- **staleness for a busy batcher (1): appends never restart the timer.** `startTime` is set when
+    the batch is taken from freeBatches (`getBatch` → `reset`, i.e. not later than its first
+    append) and an Add into an existing batch leaves it unchanged, whatever the event's size or
+    kind. -/
+theorem add_keeps_start (c : Cfg) (s s' : State) (b : Cur) (e : Ev) (t0 now : Nat)
+    (hcur : s.cur = some b) (hst : s.stopped = false) (hs : step? c s (.add e t0 now) = some s') :
+    ∃ b', s'.cur = some b' ∧ b'.start = b.start ∧ b'.evs = b.evs ++ [e] := by
+  simp only [step?] at hs
+  split at hs; · simp at hs
+  simp only [hst] at hs
+  simp [getBatch, hcur, afterStatus] at hs
+  subst hs
+  refine ⟨_, rfl, ?_, ?_⟩
+  · unfold Cur.updateStatus; split <;> rfl
+  · rw [updateStatus_evs]; rfl
+
+/-- a batch taken from freeBatches by an Add starts its timer at that Add's first clock read -/
+theorem add_fresh_start (c : Cfg) (s s' : State) (e : Ev) (t0 now : Nat)
+    (hcur : s.cur = none) (hst : s.stopped = false) (hs : step? c s (.add e t0 now) = some s') :
+    ∃ b', s'.cur = some b' ∧ b'.start = t0 ∧ b'.evs = [e] := by
+  simp only [step?] at hs
+  split at hs; · simp at hs
+  simp only [hst] at hs
+  by_cases hf : s.free = 0
+  · simp [getBatch, hcur, hf] at hs
+  · simp [getBatch, hcur, hf, afterStatus] at hs
+    subst hs
+    refine ⟨_, rfl, ?_, ?_⟩
+    · unfold Cur.updateStatus; split <;> rfl
+    · rw [updateStatus_evs]; rfl
+
+/-- the step after a ready `updateStatus` is the seal of exactly that batch -/
+theorem seal_after_ready (c : Cfg) (s0 : State) (b' : Cur) (free now : Nat)
+    (hl : (readiness c b' now != .notReady) = true) :
+    (afterStatus c s0 b' free now).locked = true ∧
+    ∃ s2, step? c (afterStatus c s0 b' free now) .sealB = some s2 ∧ s2.cur = none ∧
+      ∃ last, s2.full = s0.full ++ [last] ∧ last.evs = b'.evs := by
+  refine ⟨by simp [afterStatus, hl], ?_⟩
+  simp [step?, afterStatus, hl, updateStatus_evs]
+
+/-- **staleness for a busy batcher (2): an Add flushes an over-age batch too.** If the current
+    batch is older than the timeout when `updateStatus` runs inside an Add, the batch (with the new
+    event) is ready: the lock stays held and the next step is its `sealB`. Together with
+    `add_keeps_start` and `staleness`: an event never waits in the current batch past the first
+    heartbeat or Add that sees `now − start > timeout`, and `start` is not later than the event's
+    own append — traffic that keeps arriving cannot postpone the flush. -/
+theorem staleness_add (c : Cfg) (s s' : State) (b : Cur) (e : Ev) (t0 now : Nat)
+    (hcur : s.cur = some b) (hst : s.stopped = false) (hage : now - b.start > c.timeout)
+    (hs : step? c s (.add e t0 now) = some s') :
+    s'.locked = true ∧ ∃ s2, step? c s' .sealB = some s2 ∧ s2.cur = none ∧
+      ∃ last, s2.full = s.full ++ [last] ∧ last.evs = b.evs ++ [e] := by
+  simp only [step?] at hs
+  split at hs; · simp at hs
+  simp only [hst] at hs
+  simp [getBatch, hcur] at hs
+  subst hs
+  have hlen : (b.append e).evs.length ≠ 0 := by simp [Cur.append]
+  have hstart : (b.append e).start = b.start := rfl
+  have hready : readiness c (b.append e) now ≠ .notReady := by
+    unfold readiness
+    simp only [hlen, ↓reduceIte]
+    split
+    · simp
+    · have : (b.append e).evs.length > 0 ∧ now - (b.append e).start > c.timeout := ⟨by omega, by rw [hstart]; exact hage⟩
+      simp [this]
+  have hl : (readiness c (b.append e) now != .notReady) = true := by simpa using hready
+  exact seal_after_ready c _ (b.append e) s.free now hl
+
 example : ∃ s, Run cfg2 [.add e1 0 0, .heartbeat 5 5, .heartbeat 11 11, .sealB] s ∧
     s.cur = none ∧ s.full.map (fun b => (b.evs, b.status)) = [([e1], .timeout)] := by
   refine ⟨_, rfl, rfl, ?_⟩; decide
